@@ -89,6 +89,8 @@ def rule_mode_agreement(ctx: Ctx, out: Collector) -> None:
             mode = op.args[0] if op.args else next((k.value for k in op.keywords if k.arg == 'mode'), None)
             modes = _mode_values(m, mode)
             if modes is None:
+                modes = _mode_by_interpretation(ctx, m, mode)
+            if modes is None:
                 problems.append(f'mode {unparse(mode) if mode is not None else "<default>"} cannot be resolved')
                 continue
             for kind in set(kinds.values()):
@@ -129,6 +131,74 @@ def _mode_values(m: FuncUnit, mode: Optional[ast.AST]) -> Optional[Dict[str, str
                         if isinstance(e, ast.Name) and e.id == mode.id and isinstance(n.value, ast.IfExp):
                             return _ifexp_modes(n.value, i)
     return None
+
+
+def _mode_by_interpretation(ctx: Ctx, m: FuncUnit, mode: ast.AST) -> Optional[Dict[str, str]]:
+    """kind -> mode string by abstract interpretation of the expression (and of the local definitions / helper
+    methods it goes through) with the serializer's is_binary fixed to True / False."""
+    from ..absint import AObj, Interp, Oracle, TOP, enumerate_outcomes
+    p = ctx.p
+    env0 = FuncEnv.of(p, m)
+    defs = env0.local_defs()
+    pm = parents(m.node)
+
+    def serializer_like(name: str) -> bool:
+        t = env0.name_type(name)
+        if t[0] == 'class':
+            return p.lookup_field(t[1], 'is_binary') is not None or p.lookup_method(t[1], 'is_binary') is not None
+        return False
+
+    def run_for(flag: bool):
+        def run(oracle: Oracle):
+            interp = Interp(p, oracle)
+            self_obj = AObj(m.cls, {}) if m.cls is not None else None
+            env = {'__unit__': m, '__module__': m.module, '__closure__': None, '__self__': self_obj}
+            if self_obj is not None and m.params():
+                env[m.params()[0]] = self_obj
+            busy = set()
+
+            def value_of(name: str):
+                if name in env:
+                    return env[name]
+                if name in busy:
+                    raise AnalysisError(f'cyclic definition of {name}')
+                busy.add(name)
+                ds = defs.get(name) or []
+                if serializer_like(name):
+                    v = AObj(env0.name_type(name)[1], {'is_binary': flag})
+                elif len(ds) == 1 and ds[0][0] == 'assign':
+                    v = ev(ds[0][1])
+                elif len(ds) == 1 and ds[0][0] == 'unpack' and ds[0][1] == 'assign':
+                    v = ev(ds[0][2])
+                    for i in ds[0][3]:
+                        if not isinstance(v, (tuple, list)) or i >= len(v):
+                            raise AnalysisError(f'cannot unpack the definition of {name}')
+                        v = v[i]
+                else:
+                    v = TOP
+                busy.discard(name)
+                env[name] = v
+                return v
+
+            def ev(expr):
+                for n in ast.walk(expr):
+                    if isinstance(n, ast.Name) and isinstance(n.ctx, ast.Load) and n.id in defs and n.id not in env:
+                        value_of(n.id)
+                return interp.eval(expr, env)
+            return ev(mode)
+        outs = enumerate_outcomes(run)
+        vals = {o[1] for o in outs if o[0] == 'value'}
+        if len(vals) != 1 or any(o[0] != 'value' for o in outs):
+            return None
+        v = next(iter(vals))
+        return v if isinstance(v, str) else None
+    try:
+        b, t = run_for(True), run_for(False)
+    except AnalysisError:
+        return None
+    if b is None or t is None:
+        return None
+    return {'binary': b, 'text': t}
 
 
 def _ifexp_modes(e: ast.IfExp, idx: Optional[int]) -> Optional[Dict[str, str]]:
